@@ -599,6 +599,408 @@ theorem rows_sources (A : Arith Rat β) (cfg : PCfg Rat) (fasta : C05.Seq) (file
 
 end sources
 
+/-! ## `planted_found`: the two hypotheses of `planted_found_partial`, derived
+
+`planted_found_partial` takes "c survives the preliminary trimming" and "every other retained candidate has a strictly
+lower hyperscore" as hypotheses. Here they are DERIVED from statements about the spectrum and the database:
+
+* (a) `ladder_strictly_best` — the pinned hyperscore `ln((Ib+1)(Iy+1)) + lnfact(nb) + lnfact(ny)` (C04 `hyperscore_def`)
+  is strictly larger for the candidate whose matched set dominates (`Dominated`), under explicit laws on the
+  environment (`HyperLaws`: monotone/strict `+ 1`, cast, `×`, `ln` on positives, `+` on scores, `lnfact` increasing
+  from 1 on and `lnfact 0 ≤ lnfact m` for `m ≥ 3`, everything finite). These laws are HYPOTHESES of the theorems, not
+  axioms; they hold of exact arithmetic (proved below for the toy environments over ℕ and ℚ). NOTE the shape of the
+  `lnfact` law: the code's `lnfact 0 = 1.0` exceeds `lnfact 1 ≈ −0.08` and `lnfact 2 ≈ 0.999`, so "fewer matches ⇒ lower
+  score" is FALSE of the real function when a terminus goes from 1 or 2 matches to 0; `Dominated` therefore asks that a
+  competitor with no b (y) match faces a planted candidate with 0 or ≥ 3 b (y) matches.
+* (b) `survives_trim` — C02 `retained_topk`: a dense-vector entry is retained whenever at most
+  `K = max 50 (2·report_psms)` entries have a preliminary count `≥` its own (in particular when the searched windows
+  hold at most `K` slots, or when its count is strictly the largest); `mem_allRaw_of_hit` says that a database
+  peptide inside a searched window with at least one indexed fragment matched IS such an entry (C02
+  `candidates_exact`).
+* (c) `search_planted_found` / `planted_found` conclude rank 1.
+
+The strictness premise is necessary: a competitor with the same ion series (the I/L-swapped reversal `PIFLK` of
+`PLFIK`, findings/C01-isobaric-decoy-outranks-planted-target.req) has the same matched set, and `Dominated` is
+irreflexive (`not_dominated_of_same_series`). -/
+
+section ladder
+variable {α β : Type} [LinearOrder α] [LinearOrder β]
+
+/-- laws of exact arithmetic the strict comparison of two pinned hyperscores needs (hypotheses, not axioms) -/
+structure HyperLaws (E : Env α β) : Prop where
+  add_one_mono : ∀ a b : α, a ≤ b → E.add a (E.ofNat 1) ≤ E.add b (E.ofNat 1)
+  add_one_strict : ∀ a b : α, a < b → E.add a (E.ofNat 1) < E.add b (E.ofNat 1)
+  add_one_pos : ∀ a : α, E.ofNat 0 ≤ a → E.ofNat 0 < E.add a (E.ofNat 1)
+  cast_mono : ∀ a b : α, a ≤ b → E.cast a ≤ E.cast b
+  cast_strict : ∀ a b : α, a < b → E.cast a < E.cast b
+  cast_pos : ∀ a : α, E.ofNat 0 < a → E.ofNatD 0 < E.cast a
+  mulD_pos : ∀ a c : β, E.ofNatD 0 < a → E.ofNatD 0 < c → E.ofNatD 0 < E.mulD a c
+  mulD_lt_left : ∀ a b c d : β, E.ofNatD 0 < a → E.ofNatD 0 < c → a < b → c ≤ d → E.mulD a c < E.mulD b d
+  mulD_lt_right : ∀ a b c d : β, E.ofNatD 0 < a → E.ofNatD 0 < c → a ≤ b → c < d → E.mulD a c < E.mulD b d
+  /-- `ln` strictly increasing on positives -/
+  ln_strict : ∀ x y : β, E.ofNatD 0 < x → x < y → E.ln x < E.ln y
+  addD_mono : ∀ a b c d : β, a ≤ b → c ≤ d → E.addD a c ≤ E.addD b d
+  addD_strict : ∀ a b c d : β, a < b → c ≤ d → E.addD a c < E.addD b d
+  /-- `lnfact` (Stirling) is increasing from 1 on … -/
+  lnfact_mono : ∀ n m : Nat, 1 ≤ n → n ≤ m → C04.lnfact E n ≤ C04.lnfact E m
+  /-- … and `lnfact 0 = 1.0` is below `lnfact m` only for `m ≥ 3` -/
+  lnfact_zero : ∀ m : Nat, 3 ≤ m → C04.lnfact E 0 ≤ C04.lnfact E m
+  /-- no overflow: the `255` guard is never taken -/
+  finite : ∀ s : β, E.isFinite s = true
+
+/-- the matched set `(nb', ny', Ib', Iy')` is dominated by `(nb, ny, Ib, Iy)`: no more matches at either terminus, no
+    more matched intensity at either terminus, strictly less at one; intensities sums non-negative; and a terminus
+    without any match faces 0 or at least 3 matches (the `lnfact 0 = 1.0` anomaly) -/
+def Dominated (E : Env α β) (v' v : C04.SpecVals α β) : Prop :=
+  v'.nb ≤ v.nb ∧ v'.ny ≤ v.ny ∧ (v'.nb = 0 → v.nb = 0 ∨ 3 ≤ v.nb) ∧ (v'.ny = 0 → v.ny = 0 ∨ 3 ≤ v.ny) ∧
+  E.ofNat 0 ≤ v'.ib ∧ E.ofNat 0 ≤ v'.iy ∧ v'.ib ≤ v.ib ∧ v'.iy ≤ v.iy ∧ (v'.ib < v.ib ∨ v'.iy < v.iy)
+
+instance (E : Env α β) (v' v : C04.SpecVals α β) : Decidable (Dominated E v' v) := by
+  unfold Dominated; infer_instance
+
+theorem not_dominated_self (E : Env α β) (v : C04.SpecVals α β) : ¬ Dominated E v v := by
+  rintro ⟨_, _, _, _, _, _, _, _, h | h⟩ <;> exact lt_irrefl _ h
+
+theorem lnfact_le_of_dominated (E : Env α β) (L : HyperLaws E) (n' n : Nat) (h : n' ≤ n)
+    (h0 : n' = 0 → n = 0 ∨ 3 ≤ n) : C04.lnfact E n' ≤ C04.lnfact E n := by
+  rcases Nat.eq_zero_or_pos n' with hz | hp
+  · subst hz
+    rcases h0 rfl with hn | hn
+    · subst hn; exact le_refl _
+    · exact L.lnfact_zero n hn
+  · exact L.lnfact_mono n' n hp h
+
+/-- **C01.ladder_strictly_best** — (a): for every environment satisfying `HyperLaws`, the pinned hyperscore
+    `ln((Ib+1)·(Iy+1)) + lnfact(nb) + lnfact(ny)` of a dominated matched set is STRICTLY smaller. -/
+theorem ladder_strictly_best (E : Env α β) (L : HyperLaws E) (v' v : C04.SpecVals α β) (hd : Dominated E v' v) :
+    C04.specHyperscore E v'.nb v'.ny v'.ib v'.iy < C04.specHyperscore E v.nb v.ny v.ib v.iy := by
+  obtain ⟨hnb, hny, hb0, hy0, hib0, hiy0, hib, hiy, hstrict⟩ := hd
+  -- the four factors
+  have pa' : E.ofNatD 0 < E.cast (E.add v'.ib (E.ofNat 1)) := L.cast_pos _ (L.add_one_pos _ hib0)
+  have pc' : E.ofNatD 0 < E.cast (E.add v'.iy (E.ofNat 1)) := L.cast_pos _ (L.add_one_pos _ hiy0)
+  have la : E.cast (E.add v'.ib (E.ofNat 1)) ≤ E.cast (E.add v.ib (E.ofNat 1)) :=
+    L.cast_mono _ _ (L.add_one_mono _ _ hib)
+  have lc : E.cast (E.add v'.iy (E.ofNat 1)) ≤ E.cast (E.add v.iy (E.ofNat 1)) :=
+    L.cast_mono _ _ (L.add_one_mono _ _ hiy)
+  have hmul : E.mulD (E.cast (E.add v'.ib (E.ofNat 1))) (E.cast (E.add v'.iy (E.ofNat 1))) <
+      E.mulD (E.cast (E.add v.ib (E.ofNat 1))) (E.cast (E.add v.iy (E.ofNat 1))) := by
+    rcases hstrict with hs | hs
+    · exact L.mulD_lt_left _ _ _ _ pa' pc' (L.cast_strict _ _ (L.add_one_strict _ _ hs)) lc
+    · exact L.mulD_lt_right _ _ _ _ pa' pc' la (L.cast_strict _ _ (L.add_one_strict _ _ hs))
+  have hln := L.ln_strict _ _ (L.mulD_pos _ _ pa' pc') hmul
+  have hfb := lnfact_le_of_dominated E L v'.nb v.nb hnb hb0
+  have hfy := lnfact_le_of_dominated E L v'.ny v.ny hny hy0
+  unfold C04.specHyperscore C04.guard255
+  rw [L.finite, L.finite]
+  simp only [if_true]
+  exact L.addD_strict _ _ _ _ (L.addD_strict _ _ _ _ hln hfb) hfy
+
+/-- the naive matched-set values (C04 `specVals`) of peptide `pep` scored at precursor charge `z` on `peaks` -/
+def candVals (E : Env α β) (ftol : C03.Tol α) (mfcCfg : Option Nat) (info : C02.PepInfo α) (peaks : Array (Peak α))
+    (pep z : Nat) : C04.SpecVals α β :=
+  C04.specVals E (info.len pep)
+    (C04.specMatches E (fun mz => C04.select E peaks mz ftol none)
+      (C04.fragCharges (info.series pep) (C04.maxFragmentCharge mfcCfg z)))
+
+/-- what `score_candidate` stores for a preliminary entry, in terms of its matched set (C04 `hyperscore_def`,
+    `scoreCandidate_spec`) -/
+theorem scoreCand_vals (E : Env α β) (ftol : C03.Tol α) (mfcCfg : Option Nat) (info : C02.PepInfo α)
+    (peaks : Array (Peak α)) (pre : PreScore) :
+    (C02.scoreCand E ftol mfcCfg info peaks pre : C02.Cand β).hs =
+      C04.specHyperscore E (candVals E ftol mfcCfg info peaks pre.peptide pre.charge).nb
+        (candVals E ftol mfcCfg info peaks pre.peptide pre.charge).ny
+        (candVals E ftol mfcCfg info peaks pre.peptide pre.charge).ib
+        (candVals E ftol mfcCfg info peaks pre.peptide pre.charge).iy ∧
+    (C02.scoreCand E ftol mfcCfg info peaks pre : C02.Cand β).matched =
+      (candVals E ftol mfcCfg info peaks pre.peptide pre.charge).nb +
+      (candVals E ftol mfcCfg info peaks pre.peptide pre.charge).ny := by
+  have h1 := C04.hyperscore_def E (fun mz => C04.select E peaks mz ftol none) (info.series pre.peptide)
+    (info.len pre.peptide) (C04.maxFragmentCharge mfcCfg pre.charge) false
+  have h2 := C04.scoreCandidate_spec E (fun mz => C04.select E peaks mz ftol none) (info.series pre.peptide)
+    (info.len pre.peptide) (C04.maxFragmentCharge mfcCfg pre.charge) false false
+  simp only at h1 h2
+  obtain ⟨hb, hy, -⟩ := h2
+  unfold C02.scoreCand candVals
+  exact ⟨h1, by simp only [hb, hy]⟩
+
+/-- the "complete ladder" premise in its literal form: if EVERY (fragment, charge) pair of the candidate finds a peak
+    within the fragment tolerance, its matched count `nb + ny` is the full number of pairs — so `hmin` of
+    `search_planted_found` / `planted_found` holds as soon as that number reaches `min_matched_peaks` -/
+theorem full_ladder_count {α β : Type} (E : Env α β) (sel : α → Option (Peak α)) (n : Nat) (fzs : List (C04.FZ α))
+    (h : ∀ f ∈ fzs, (sel (C04.mzOf E f)).isSome = true) :
+    (C04.specVals E n (C04.specMatches E sel fzs)).nb + (C04.specVals E n (C04.specMatches E sel fzs)).ny =
+      fzs.length := by
+  have hlen : (C04.specMatches E sel fzs).length = fzs.length := by
+    unfold C04.specMatches
+    induction fzs with
+    | nil => rfl
+    | cons f rest ih =>
+      have hf := h f List.mem_cons_self
+      obtain ⟨p, hp⟩ := Option.isSome_iff_exists.mp hf
+      rw [List.filterMap_cons, hp]
+      simp only [Option.map_some, List.length_cons]
+      rw [ih (fun g hg => h g (List.mem_cons_of_mem _ hg))]
+  have hsplit : ∀ l : List (C04.Match α),
+      (l.filter (·.fz.kind.isN)).length + (l.filter (fun m => !m.fz.kind.isN)).length = l.length := by
+    intro l
+    induction l with
+    | nil => rfl
+    | cons m ms ih =>
+      by_cases hk : m.fz.kind.isN = true
+      · simp only [List.filter_cons, hk, if_true, Bool.not_true, Bool.false_eq_true, if_false, List.length_cons]; omega
+      · simp only [Bool.not_eq_true] at hk
+        simp only [List.filter_cons, hk, Bool.false_eq_true, if_false, Bool.not_false, if_true, List.length_cons]; omega
+  unfold C04.specVals
+  simp only
+  rw [hsplit, hlen]
+
+/-- the exception made visible: a competitor with the same ion series and length (e.g. the I/L-swapped reversal of the
+    planted peptide) has the SAME matched set at the same charge, so the strictness premise cannot hold for it -/
+theorem not_dominated_of_same_series (E : Env α β) (ftol : C03.Tol α) (mfcCfg : Option Nat) (info : C02.PepInfo α)
+    (peaks : Array (Peak α)) (p p' z : Nat) (hs : info.series p' = info.series p) (hl : info.len p' = info.len p) :
+    ¬ Dominated E (candVals E ftol mfcCfg info peaks p' z) (candVals E ftol mfcCfg info peaks p z) := by
+  unfold candVals
+  rw [hs, hl]
+  exact not_dominated_self E _
+
+/-- **C01.survives_trim** — (b): an entry of the dense vectors of the searched windows is RETAINED by the three
+    levels of trimming whenever at most `K = max 50 (2·report_psms)` entries have a preliminary matched count `≥` its
+    own (C02 `retained_topk`). -/
+theorem survives_trim (E : Env α β) (db : C02.Db α) (cfg : C02.Cfg α) (peaks : List (Peak α)) (prec : C02.Precursor α)
+    (c : PreScore) (hc : c ∈ C02.allRaw E db cfg peaks prec)
+    (hK : ((C02.allRaw E db cfg peaks prec).filter fun y => decide (c.matched ≤ y.matched)).length ≤
+      max 50 (2 * cfg.reportPsms)) :
+    c ∈ (C02.initialHits E db cfg peaks prec).prelim.toList := by
+  obtain ⟨dropped, ts⟩ := C02.retained_topk E db cfg peaks prec
+  have hmem : c ∈ (C02.initialHits E db cfg peaks prec).prelim.toList ++ dropped := (ts.perm.mem_iff).mpr hc
+  rcases List.mem_append.mp hmem with h | hdrop
+  · exact h
+  · exfalso
+    have hfull := ts.full (List.ne_nil_of_mem hdrop)
+    have hlen := (ts.perm.filter fun y => decide (c.matched ≤ y.matched)).length_eq
+    rw [List.filter_append, List.length_append] at hlen
+    have hkept : ((C02.initialHits E db cfg peaks prec).prelim.toList.filter fun y => decide (c.matched ≤ y.matched)) =
+        (C02.initialHits E db cfg peaks prec).prelim.toList := by
+      apply List.filter_eq_self.mpr
+      intro x hx
+      simpa using C02.PreScore.matched_le_of_le (ts.ge x hx c hdrop)
+    have hd1 : 1 ≤ (dropped.filter fun y => decide (c.matched ≤ y.matched)).length := by
+      have : c ∈ dropped.filter fun y => decide (c.matched ≤ y.matched) := List.mem_filter.mpr ⟨hdrop, by simp⟩
+      exact List.length_pos_of_mem this
+    rw [hkept] at hlen
+    omega
+
+/-- … in particular when the searched windows hold at most `K` slots … -/
+theorem survives_trim_small (E : Env α β) (db : C02.Db α) (cfg : C02.Cfg α) (peaks : List (Peak α))
+    (prec : C02.Precursor α) (c : PreScore) (hc : c ∈ C02.allRaw E db cfg peaks prec)
+    (hK : (C02.allRaw E db cfg peaks prec).length ≤ max 50 (2 * cfg.reportPsms)) :
+    c ∈ (C02.initialHits E db cfg peaks prec).prelim.toList :=
+  survives_trim E db cfg peaks prec c hc (le_trans (List.length_filter_le _ _) hK)
+
+/-- … or when fewer than `K` other entries reach its preliminary count (e.g. its count is strictly the largest) -/
+theorem survives_trim_max (E : Env α β) (db : C02.Db α) (cfg : C02.Cfg α) (peaks : List (Peak α))
+    (prec : C02.Precursor α) (c : PreScore) (hc : c ∈ C02.allRaw E db cfg peaks prec)
+    (hone : (C02.allRaw E db cfg peaks prec).count c = 1)
+    (hmax : ∀ y ∈ C02.allRaw E db cfg peaks prec, y ≠ c → y.matched < c.matched) :
+    c ∈ (C02.initialHits E db cfg peaks prec).prelim.toList := by
+  apply survives_trim E db cfg peaks prec c hc
+  have : ((C02.allRaw E db cfg peaks prec).filter fun y => decide (c.matched ≤ y.matched)) =
+      (C02.allRaw E db cfg peaks prec).filter fun y => y == c := by
+    apply List.filter_congr
+    intro y hy
+    by_cases hyc : y = c
+    · subst hyc; simp
+    · have hlt := hmax y hy hyc
+      have h1 : decide (c.matched ≤ y.matched) = false := by simp; omega
+      have h2 : (y == c) = false := by simp [hyc]
+      rw [h1, h2]
+  rw [this, ← List.count_eq_length_filter, hone]
+  omega
+
+/-- a database peptide inside a searched (charge, isotope) window with at least one indexed fragment matched by a
+    peak IS an entry of the dense vectors (`allRaw`), carrying its peptide index, the searched charge and isotope
+    offset, and the number of its hits as preliminary count (C02 `candidates_exact`) -/
+theorem mem_allRaw_of_hit (E : Env α β) (db : C02.Db α) (inv : C03.DbInv db.masses db.minv db.frags db.B)
+    (cfg : C02.Cfg α) (peaks : List (Peak α)) (prec : C02.Precursor α)
+    (zt : Nat × C03.Tol α) (hzt : zt ∈ C02.searched E cfg prec) (e : Int) (he : e ∈ C02.isotopes cfg.isoLo cfg.isoHi)
+    (f : C03.Frag α)
+    (hf : f ∈ C02.scanHits E db zt.2 cfg.ftol
+      (C02.queryMass E (E.mul (E.sub prec.mz E.proton) (E.ofNat zt.1)) e) peaks (C04.maxFragmentCharge cfg.mfc zt.1)) :
+    ∃ c ∈ C02.allRaw E db cfg peaks prec, c.peptide = f.pep ∧ c.charge = zt.1 ∧ c.iso = e ∧ 0 < c.matched ∧
+      c.matched = ((C02.scanHits E db zt.2 cfg.ftol
+        (C02.queryMass E (E.mul (E.sub prec.mz E.proton) (E.ofNat zt.1)) e) peaks
+        (C04.maxFragmentCharge cfg.mfc zt.1)).map (·.pep)).count f.pep := by
+  have hce := C02.candidates_exact E db inv cfg.ftol zt.2 cfg.mfc peaks
+    (E.mul (E.sub prec.mz E.proton) (E.ofNat zt.1)) zt.1 e
+  simp only at hce
+  obtain ⟨_, _, hwin, hslots⟩ := hce
+  obtain ⟨hlo, hidx, _⟩ := hwin f hf
+  obtain ⟨sc, hsc, hcount, _, hpos⟩ := hslots _ hidx
+  have hadd : (C03.binarySearchSlice db.masses
+      (C04.tolBounds E zt.2 (C02.queryMass E (E.mul (E.sub prec.mz E.proton) (E.ofNat zt.1)) e)).1
+      (C04.tolBounds E zt.2 (C02.queryMass E (E.mul (E.sub prec.mz E.proton) (E.ofNat zt.1)) e)).2).1 +
+      (f.pep - (C03.binarySearchSlice db.masses
+      (C04.tolBounds E zt.2 (C02.queryMass E (E.mul (E.sub prec.mz E.proton) (E.ofNat zt.1)) e)).1
+      (C04.tolBounds E zt.2 (C02.queryMass E (E.mul (E.sub prec.mz E.proton) (E.ofNat zt.1)) e)).2).1) = f.pep := by
+    omega
+  rw [hadd] at hcount hpos
+  have hcpos : 0 < sc.matched := by
+    rw [hcount]
+    exact List.count_pos_iff.mpr (List.mem_map.mpr ⟨f, hf, rfl⟩)
+  obtain ⟨h1, h2, h3⟩ := hpos hcpos
+  refine ⟨sc, ?_, h1, h2, h3, hcpos, hcount⟩
+  unfold C02.allRaw C02.rawOf
+  refine List.mem_flatMap.mpr ⟨zt, hzt, List.mem_flatMap.mpr ⟨e, he, ?_⟩⟩
+  exact Array.mem_toList_iff.mpr (Array.mem_of_getElem? hsc)
+
+/-- the three hypotheses `planted_found_partial` takes, derived: retention (b), `min_matched_peaks` and strict
+    maximality (a) of the planted entry `c` -/
+theorem planted_hyps (A : Arith α β) (hAtle : ∀ x y, A.tle x y = decide (x ≤ y)) (L : HyperLaws A.E)
+    (db : C02.Db α) (cfg : C02.Cfg α) (info : C02.PepInfo α) (peaks : List (Peak α)) (prec : C02.Precursor α)
+    (c : PreScore) (hc : c ∈ C02.allRaw A.E db cfg peaks prec)
+    (hK : ((C02.allRaw A.E db cfg peaks prec).filter fun y => decide (c.matched ≤ y.matched)).length ≤
+      max 50 (2 * cfg.reportPsms))
+    (hmin : cfg.minMatched ≤ (candVals A.E cfg.ftol cfg.mfc info peaks.toArray c.peptide c.charge).nb +
+      (candVals A.E cfg.ftol cfg.mfc info peaks.toArray c.peptide c.charge).ny)
+    (hbest : ∀ c' ∈ C02.allRaw A.E db cfg peaks prec, c' ≠ c → 0 < c'.matched →
+      Dominated A.E (candVals A.E cfg.ftol cfg.mfc info peaks.toArray c'.peptide c'.charge)
+        (candVals A.E cfg.ftol cfg.mfc info peaks.toArray c.peptide c.charge)) :
+    c ∈ (C02.initialHits A.E db cfg peaks prec).prelim.toList ∧
+    cfg.minMatched ≤ (C02.scoreCand A.E cfg.ftol cfg.mfc info peaks.toArray c : C02.Cand β).matched ∧
+    ∀ c' ∈ (C02.initialHits A.E db cfg peaks prec).prelim.toList, c' ≠ c → 0 < c'.matched →
+      cfg.minMatched ≤ (C02.scoreCand A.E cfg.ftol cfg.mfc info peaks.toArray c' : C02.Cand β).matched →
+      A.tle (C02.scoreCand A.E cfg.ftol cfg.mfc info peaks.toArray c : C02.Cand β).hs
+            (C02.scoreCand A.E cfg.ftol cfg.mfc info peaks.toArray c' : C02.Cand β).hs = false := by
+  refine ⟨survives_trim A.E db cfg peaks prec c hc hK, ?_, ?_⟩
+  · rw [(scoreCand_vals A.E cfg.ftol cfg.mfc info peaks.toArray c).2]; exact hmin
+  · intro c' hc' hne hm' _
+    obtain ⟨dropped, ts⟩ := C02.retained_topk A.E db cfg peaks prec
+    have hraw : c' ∈ C02.allRaw A.E db cfg peaks prec :=
+      (ts.perm.mem_iff).mp (List.mem_append_left _ hc')
+    have hlt := ladder_strictly_best A.E L _ _ (hbest c' hraw hne hm')
+    rw [(scoreCand_vals A.E cfg.ftol cfg.mfc info peaks.toArray c).1,
+      (scoreCand_vals A.E cfg.ftol cfg.mfc info peaks.toArray c').1, hAtle]
+    exact decide_eq_false (not_le.mpr hlt)
+
+theorem totalPre_of_le (tle : β → β → Bool) (h : ∀ x y, tle x y = decide (x ≤ y)) : C02.TotalPre tle :=
+  ⟨fun x y => by simp only [h, decide_eq_true_eq]; exact le_total x y,
+   fun x y z h1 h2 => by simp only [h, decide_eq_true_eq] at *; exact le_trans h1 h2⟩
+
+/-- **C01.search_planted_found** — the search-level form (any fragment index, standard mode, `report_psms ≥ 1`): let `c`
+    be an entry of the dense vectors of the searched windows (`mem_allRaw_of_hit`: a database peptide inside a searched
+    precursor window with an indexed fragment matched) such that
+    * at most `K = max 50 (2·report_psms)` entries have a preliminary count `≥ c`'s (b),
+    * its full matched set reaches `min_matched_peaks`,
+    * the matched set of every OTHER entry with a preliminary match is `Dominated` by `c`'s (a);
+    then, for every environment satisfying `HyperLaws`, `Scorer::score` reports `c`'s peptide FIRST, at rank 1, with
+    `c`'s charge and isotope offset. -/
+theorem search_planted_found (A : Arith α β) (hAtle : ∀ x y, A.tle x y = decide (x ≤ y)) (L : HyperLaws A.E)
+    (db : C02.Db α) (cfg : C02.Cfg α) (info : C02.PepInfo α) (peaks : List (Peak α)) (prec : C02.Precursor α)
+    (hstd : cfg.chimera = false) (hr : 0 < cfg.reportPsms)
+    (c : PreScore) (hc : c ∈ C02.allRaw A.E db cfg peaks prec) (hm : 0 < c.matched)
+    (hK : ((C02.allRaw A.E db cfg peaks prec).filter fun y => decide (c.matched ≤ y.matched)).length ≤
+      max 50 (2 * cfg.reportPsms))
+    (hmin : cfg.minMatched ≤ (candVals A.E cfg.ftol cfg.mfc info peaks.toArray c.peptide c.charge).nb +
+      (candVals A.E cfg.ftol cfg.mfc info peaks.toArray c.peptide c.charge).ny)
+    (hbest : ∀ c' ∈ C02.allRaw A.E db cfg peaks prec, c' ≠ c → 0 < c'.matched →
+      Dominated A.E (candVals A.E cfg.ftol cfg.mfc info peaks.toArray c'.peptide c'.charge)
+        (candVals A.E cfg.ftol cfg.mfc info peaks.toArray c.peptide c.charge)) :
+    ∃ p, (C02.search A.E A.tle db cfg info peaks prec).2[0]? = some p ∧ p.rank = 1 ∧ p.pep = c.peptide ∧
+      p.charge = c.charge ∧ p.iso = c.iso := by
+  obtain ⟨h1, h2, h3⟩ := planted_hyps A hAtle L db cfg info peaks prec c hc hK hmin hbest
+  have htle := totalPre_of_le A.tle hAtle
+  let sc := C02.scoreCand (β := β) A.E cfg.ftol cfg.mfc info peaks.toArray
+  let prelim := (C02.initialHits A.E db cfg peaks prec).prelim.toList
+  let sv := C02.scoreVector A.tle sc cfg.minMatched prelim
+  have hmem : sc c ∈ sv := (C02.mem_scoreVector A.tle sc cfg.minMatched prelim (sc c)).mpr ⟨c, h1, hm, rfl, h2⟩
+  have hhead : ∃ rest, sv = sc c :: rest := by
+    rcases hsv : sv with _ | ⟨d, rest⟩
+    · rw [hsv] at hmem; cases hmem
+    · obtain ⟨⟨p, hp, hpm, hd, hdmin⟩, hall⟩ :=
+        C02.scoreVector_head_best A.tle (minMatched := cfg.minMatched) (prelim := prelim) htle sc d rest hsv
+      by_cases hpc : p = c
+      · subst hpc; exact ⟨rest, by rw [hd]⟩
+      · exfalso
+        have e1 := hall c h1 hm h2
+        have e2 := h3 p hp hpc hpm (by have := hdmin; rw [hd] at this; exact this)
+        rw [hd] at e1
+        have e3 : A.tle (sc c).hs (sc p).hs = false := e2
+        rw [e3] at e1; cases e1
+  obtain ⟨rest, hsv⟩ := hhead
+  unfold C02.search
+  simp only [hstd]
+  unfold C02.buildFeatures
+  have := C02.reportFrom_getElem? A.E.subD (A.E.ofNatD 0) sv cfg.reportPsms 0
+  rw [if_pos hr, hsv] at this
+  simp only [List.getElem?_cons_zero, Option.map_some] at this
+  refine ⟨C02.mkPsm A.E.subD (A.E.ofNatD 0) (sc c :: rest) (sc c) 0, ?_, rfl, rfl, rfl, rfl⟩
+  simp only [Bool.false_eq_true, if_false]
+  show (C02.reportFrom A.E.subD (A.E.ofNatD 0) sv cfg.reportPsms)[0]? = _
+  rw [hsv]; exact this
+
+end ladder
+
+section plantedPipeline
+variable {α β : Type} [LinearOrder α] [LinearOrder β] [Add α] [Sub α] [Mul α] [Neg α] [OfNat α 0] [C10.Num α]
+  [C17.NumOps α]
+
+/-- **C01.planted_found** — the property's last sentence for the pipeline model (standard mode, `report_psms ≥ 1`, any
+    environment satisfying `HyperLaws`, hyperscores compared by `≤`): in a run over the database built from the FASTA
+    records, let a spectrum be prepared to `(peaks, tic, prec)` and let database peptide `f.pep` have an indexed
+    fragment `f` matched by a peak inside the searched window `(zt, e)` (so that it is a candidate there). If
+    * at most `K = max 50 (2·report_psms)` dense-vector entries of the searched windows have a preliminary count `≥`
+      that of the planted candidate (`hK`: e.g. the windows hold at most `K` slots, or its count is the largest),
+    * its full matched set reaches `min_matched_peaks` (`hmin`), and
+    * the matched set `(nb, ny, Ib, Iy)` of every OTHER candidate entry is `Dominated` by the planted one's (`hbest`),
+    then the FIRST row of the spectrum is the planted peptide at rank 1, at charge `zt.1` and isotope offset `e`.
+    Neither "survives trimming" nor "strictly best hyperscore" is assumed any more; both are derived
+    (`survives_trim`, `ladder_strictly_best`). What remains assumed is listed in the theorem: `HyperLaws` of the
+    environment, and `Dominated` being stated on the matched-set values rather than on the peak list. -/
+theorem planted_found (A : Arith α β) (hAtle : ∀ x y, A.tle x y = decide (x ≤ y)) (L : HyperLaws A.E)
+    (cfg : PCfg α) (targets : List (C05.Seq × C05.Seq)) (db : List (C08.DbPep α)) (w : World α)
+    (hdb : C08.buildDb cfg.db targets = some db) (hw : worldOf A cfg db = some w)
+    (hstd : cfg.search.chimera = false) (hr : 0 < cfg.search.reportPsms) (file : Nat) (sp : C17.Spectrum α)
+    (peaks : List (Peak α)) (tic : α) (prec : C02.Precursor α) (hprep : prepare cfg sp = some (peaks, tic, prec))
+    (zt : Nat × C03.Tol α) (hzt : zt ∈ C02.searched A.E cfg.search prec) (e : Int)
+    (he : e ∈ C02.isotopes cfg.search.isoLo cfg.search.isoHi) (f : C03.Frag α)
+    (hf : f ∈ C02.scanHits A.E w.idx zt.2 cfg.search.ftol
+      (C02.queryMass A.E (A.E.mul (A.E.sub prec.mz A.E.proton) (A.E.ofNat zt.1)) e) peaks
+      (C04.maxFragmentCharge cfg.search.mfc zt.1))
+    (hK : ∀ c ∈ C02.allRaw A.E w.idx cfg.search peaks prec, c.peptide = f.pep → c.charge = zt.1 → c.iso = e →
+      ((C02.allRaw A.E w.idx cfg.search peaks prec).filter fun y => decide (c.matched ≤ y.matched)).length ≤
+        max 50 (2 * cfg.search.reportPsms))
+    (hmin : cfg.search.minMatched ≤
+      (candVals A.E cfg.search.ftol cfg.search.mfc w.info peaks.toArray f.pep zt.1).nb +
+      (candVals A.E cfg.search.ftol cfg.search.mfc w.info peaks.toArray f.pep zt.1).ny)
+    (hbest : ∀ c' ∈ C02.allRaw A.E w.idx cfg.search peaks prec,
+      ¬ (c'.peptide = f.pep ∧ c'.charge = zt.1 ∧ c'.iso = e ∧ c'.matched = ((C02.scanHits A.E w.idx zt.2 cfg.search.ftol
+        (C02.queryMass A.E (A.E.mul (A.E.sub prec.mz A.E.proton) (A.E.ofNat zt.1)) e) peaks
+        (C04.maxFragmentCharge cfg.search.mfc zt.1)).map (·.pep)).count f.pep) → 0 < c'.matched →
+      Dominated A.E (candVals A.E cfg.search.ftol cfg.search.mfc w.info peaks.toArray c'.peptide c'.charge)
+        (candVals A.E cfg.search.ftol cfg.search.mfc w.info peaks.toArray f.pep zt.1)) :
+    ∃ r, (spectrumRows A cfg w file sp)[0]? = some r ∧ r.rank = 1 ∧ r.pepIx = f.pep ∧ r.charge = zt.1 ∧ r.iso = e := by
+  have inv := world_inv A cfg targets db w hdb hw
+  obtain ⟨c, hc, hp, hz, hi, hm, hcount⟩ := mem_allRaw_of_hit A.E w.idx inv cfg.search peaks prec zt hzt e he f hf
+  have hbest' : ∀ c' ∈ C02.allRaw A.E w.idx cfg.search peaks prec, c' ≠ c → 0 < c'.matched →
+      Dominated A.E (candVals A.E cfg.search.ftol cfg.search.mfc w.info peaks.toArray c'.peptide c'.charge)
+        (candVals A.E cfg.search.ftol cfg.search.mfc w.info peaks.toArray c.peptide c.charge) := by
+    intro c' hc' hne hm'
+    rw [hp, hz]
+    apply hbest c' hc' _ hm'
+    rintro ⟨q1, q2, q3, q4⟩
+    apply hne
+    cases c'; cases c
+    simp only at q1 q2 q3 q4 hp hz hi hcount
+    simp only [C02.PreScore.mk.injEq]
+    exact ⟨by rw [q4, hcount], by rw [q1, hp], by rw [q2, hz], by rw [q3, hi]⟩
+  obtain ⟨h1, h2, h3⟩ := planted_hyps A hAtle L w.idx cfg.search w.info peaks prec c hc (hK c hc hp hz hi)
+    (by rw [hp, hz]; exact hmin) hbest'
+  obtain ⟨r, hr0, hrank, hpep, hch, hiso⟩ := planted_found_partial A cfg targets db w hdb hw hstd
+    (totalPre_of_le A.tle hAtle) hr file sp peaks tic prec hprep c h1 hm h2 h3
+  exact ⟨r, hr0, hrank, by rw [hpep, hp], by rw [hch, hz], by rw [hiso, hi]⟩
+
+end plantedPipeline
+
 /-! ## non-vacuity: a concrete run in exact rationals
 
 Toy world (C08's example data): residue table A = 71, C = 103, G = 57, K = 128, water 18, proton = neutron = 1,
@@ -670,5 +1072,133 @@ example : ∃ db w, C08.buildDb Ex.cfg.db C08.Ex.fasta = some db ∧ worldOf Ex.
 example (files : List (List (C17.Line Rat))) :
     ∃ rows, pipeline Ex.A Ex.cfg (fastaText C08.Ex.fasta) files = some rows :=
   pipeline_isSome Ex.A Ex.cfg _ files C08.Ex.fasta (by decide +kernel) (by decide +kernel) (by decide)
+
+/-! ### `planted_found`: the laws hold of exact arithmetic, the premises are satisfiable, strictness is necessary -/
+
+/-- `HyperLaws` of C02's toy environment over ℕ (`ln` = identity, `half = 0`: `lnfact n = n² − n` for `n ≥ 1`, `lnfact 0 = 1`) -/
+theorem exLawsNat : HyperLaws C02.exEnv where
+  add_one_mono := by intro a b h; simp only [C02.exEnv, id]; omega
+  add_one_strict := by intro a b h; simp only [C02.exEnv, id]; omega
+  add_one_pos := by intro a h; simp only [C02.exEnv, id]; omega
+  cast_mono := by intro a b h; exact h
+  cast_strict := by intro a b h; exact h
+  cast_pos := by intro a h; exact h
+  mulD_pos := by intro a c ha hc; simp only [C02.exEnv, id] at *; exact Nat.mul_pos ha hc
+  mulD_lt_left := by
+    intro a b c d ha hc hab hcd; simp only [C02.exEnv, id] at *
+    calc a * c < b * c := Nat.mul_lt_mul_of_pos_right hab hc
+      _ ≤ b * d := Nat.mul_le_mul_left b hcd
+  mulD_lt_right := by
+    intro a b c d ha hc hab hcd; simp only [C02.exEnv, id] at *
+    calc a * c < a * d := Nat.mul_lt_mul_of_pos_left hcd ha
+      _ ≤ b * d := Nat.mul_le_mul_right d hab
+  ln_strict := by intro x y _ h; exact h
+  addD_mono := by intro a b c d h1 h2; simp only [C02.exEnv]; omega
+  addD_strict := by intro a b c d h1 h2; simp only [C02.exEnv]; omega
+  lnfact_mono := by
+    intro n m hn hnm
+    have hm : m ≠ 0 := by omega
+    have hn' : n ≠ 0 := by omega
+    simp only [C04.lnfact, C02.exEnv, id, hm, hn', if_false, Nat.zero_mul, Nat.add_zero]
+    rw [← Nat.mul_sub_one, ← Nat.mul_sub_one]
+    exact Nat.mul_le_mul hnm (Nat.sub_le_sub_right hnm 1)
+  lnfact_zero := by
+    intro m hm
+    have hm' : m ≠ 0 := by omega
+    simp only [C04.lnfact, C02.exEnv, id, hm', if_false, if_true, Nat.zero_mul, Nat.add_zero]
+    rw [← Nat.mul_sub_one]
+    have : 3 * 2 ≤ m * (m - 1) := Nat.mul_le_mul hm (by omega)
+    omega
+  finite := by intro s; rfl
+
+/-- `HyperLaws` of the exact-rational environment `Ex.E` (`ln` = identity, `half = 1/2`, `pi = 3`:
+    `lnfact n = n² + 5n/2` for `n ≥ 1`, `lnfact 0 = 1`) -/
+theorem exLawsRat : HyperLaws Ex.E where
+  add_one_mono := by intro a b h; simp only [Ex.E]; linarith
+  add_one_strict := by intro a b h; simp only [Ex.E]; linarith
+  add_one_pos := by intro a h; simp only [Ex.E, Nat.cast_zero, Nat.cast_one] at *; linarith
+  cast_mono := by intro a b h; exact h
+  cast_strict := by intro a b h; exact h
+  cast_pos := by intro a h; exact h
+  mulD_pos := by intro a c ha hc; simp only [Ex.E, Nat.cast_zero] at *; exact mul_pos ha hc
+  mulD_lt_left := by
+    intro a b c d ha hc hab hcd; simp only [Ex.E, Nat.cast_zero] at *
+    nlinarith
+  mulD_lt_right := by
+    intro a b c d ha hc hab hcd; simp only [Ex.E, Nat.cast_zero] at *
+    nlinarith
+  ln_strict := by intro x y _ h; exact h
+  addD_mono := by intro a b c d h1 h2; simp only [Ex.E]; linarith
+  addD_strict := by intro a b c d h1 h2; simp only [Ex.E]; linarith
+  lnfact_mono := by
+    intro n m hn hnm
+    have hm : m ≠ 0 := by omega
+    have hn' : n ≠ 0 := by omega
+    simp only [C04.lnfact, Ex.E, id, hm, hn', if_false]
+    have h1 : (1 : Rat) ≤ n := by exact_mod_cast hn
+    have h2 : (n : Rat) ≤ m := by exact_mod_cast hnm
+    nlinarith
+  lnfact_zero := by
+    intro m hm
+    have hm' : m ≠ 0 := by omega
+    simp only [C04.lnfact, Ex.E, id, hm', if_false, if_true, Nat.cast_one]
+    have h1 : (3 : Rat) ≤ m := by exact_mod_cast hm
+    nlinarith
+  finite := by intro s; rfl
+
+/-- (a) is not vacuous: a full ladder (3 b, 3 y matches, intensities 6 and 9) against a competitor matching a subset
+    (1 b, 3 y, intensities 2 and 9) in exact rationals: the pinned hyperscore is strictly larger -/
+example :
+    C04.specHyperscore Ex.E 1 3 2 9 < C04.specHyperscore Ex.E 3 3 6 9 :=
+  ladder_strictly_best Ex.E exLawsRat
+    { nb := 1, ny := 3, ib := 2, iy := 9, ppmNum := 0, idxB := [], idxY := [], rows := [] }
+    { nb := 3, ny := 3, ib := 6, iy := 9, ppmNum := 0, idxB := [], idxY := [], rows := [] }
+    (by unfold Dominated; simp only [Ex.E]; norm_num)
+
+/-- the toy search of C02 (`exDb`: 4 peptides, peaks at 20 and 30, precursor window [100, 105]) as an `Arith` -/
+def exArithNat : Arith Nat Nat :=
+  { E := C02.exEnv, K := { c := 12, o := 16, h := 1, n := 14, three := 3 }, tle := fun x y => decide (x ≤ y) }
+
+/-- ALL premises of `search_planted_found` hold in C02's toy world for the entry of peptide 0 (both of its fragments
+    20 and 30 are matched: count 2, `nb = 2`, `Ib = 2`; peptides 1 and 2 match one fragment each: `nb' = 1`, `Ib' = 1`;
+    the windows hold 4 slots ≤ 50), and so the conclusion: peptide 0 is reported first, at rank 1 -/
+example : ∃ p, (C02.search exArithNat.E exArithNat.tle C02.exDb C02.exCfg C02.exInfo C02.exPeaks C02.exPrec).2[0]? = some p ∧
+    p.rank = 1 ∧ p.pep = 0 ∧ p.charge = 2 ∧ p.iso = 0 :=
+  search_planted_found exArithNat (fun _ _ => rfl) exLawsNat C02.exDb C02.exCfg C02.exInfo C02.exPeaks C02.exPrec rfl
+    (by decide) ⟨2, 0, 2, 0⟩ (by decide) (by decide) (by decide) (by decide +kernel) (by decide +kernel)
+
+/-- (b) alone: the entry of peptide 0 is among the 4 ≤ 50 slots of the searched window, hence retained -/
+example : (⟨2, 0, 2, 0⟩ : PreScore) ∈ (C02.initialHits C02.exEnv C02.exDb C02.exCfg C02.exPeaks C02.exPrec).prelim.toList :=
+  survives_trim_small C02.exEnv C02.exDb C02.exCfg C02.exPeaks C02.exPrec _ (by decide) (by decide)
+
+/-- the hit premise of `mem_allRaw_of_hit` / `planted_found` is met there too: fragment 20 of peptide 0 is a hit of the
+    linear scan of the searched window (charge 2, isotope offset 0) -/
+example : ((C02.scanHits C02.exEnv C02.exDb (.da 0 5) C02.exCfg.ftol
+    (C02.queryMass C02.exEnv (C02.exEnv.mul (C02.exEnv.sub C02.exPrec.mz C02.exEnv.proton) (C02.exEnv.ofNat 2)) 0)
+    C02.exPeaks (C04.maxFragmentCharge C02.exCfg.mfc 2)).map fun f => (f.pep, f.mz)) =
+    [(0, 20), (2, 30), (0, 30), (1, 30)] := by decide
+
+/-! The exception: the I/L-swapped reversal. `PLFIK` (target) and `PIFLK` (its generated decoy: first and last residue
+    fixed, inside reversed) have the same b- and y-series, residue by residue (I and L are isobaric) … -/
+
+def ilK : C09.Consts Int := { c := 12, o := 16, h := 1, n := 14, three := 3 }
+/-- toy integer masses P 97, L 113, F 147, I 113, K 128, water 18 -/
+def pepPLFIK : C09.Pep Int := { residues := [97, 113, 147, 113, 128], mods := [0, 0, 0, 0, 0], nterm := 0, cterm := 0, mass := 616 }
+def pepPIFLK : C09.Pep Int := { residues := [97, 113, 147, 113, 128], mods := [0, 0, 0, 0, 0], nterm := 0, cterm := 0, mass := 616 }
+
+example : C09.ions ilK .b pepPLFIK = C09.ions ilK .b pepPIFLK ∧ C09.ions ilK .y pepPLFIK = C09.ions ilK .y pepPIFLK ∧
+    C09.ions ilK .b pepPLFIK = [97, 210, 357, 470] := by decide
+
+/-- … hence, whatever the spectrum, tolerance and charge, the decoy's matched set is NOT dominated by the target's: the
+    strictness premise of `search_planted_found` / `planted_found` fails for this pair (and the real program reports the
+    decoy: findings/C01-isobaric-decoy-outranks-planted-target.req) -/
+example (E : Env Int Int) (ftol : C03.Tol Int) (mfc : Option Nat) (peaks : Array (Peak Int)) (z : Nat) :
+    let info : C02.PepInfo Int :=
+      { series := fun i => [(.b, C09.ions ilK .b (if i = 0 then pepPIFLK else pepPLFIK)),
+                            (.y, C09.ions ilK .y (if i = 0 then pepPIFLK else pepPLFIK))]
+        len := fun _ => 5 }
+    ¬ Dominated E (candVals E ftol mfc info peaks 0 z) (candVals E ftol mfc info peaks 1 z) := by
+  intro info
+  exact not_dominated_of_same_series E ftol mfc info peaks 1 0 z (by decide) rfl
 
 end Sage.C01
